@@ -40,8 +40,55 @@ func (w *Writer) Emit(m M) {
 }
 
 func (w *Writer) Close() {
+	if heldN > 0 {
+		// results (and argument buffers) the recorder kept a reference to: a later call must not have changed them
+		w.Emit(M{"ev": "Held", "id": "held", "n": heldN, "changed": HeldChanged()})
+	}
 	w.w.Flush()
 	w.f.Close()
+}
+
+type held struct {
+	what string
+	ref  []byte
+	snap []byte
+}
+
+var holds []held
+var heldN int
+
+// Hold keeps a reference to a byte slice the real code returned (or was given) together with a copy of its present contents.
+// When the trace is closed, every kept slice is compared with its copy: a result that aliases a recycled buffer, a shared scratch
+// area or another caller's storage has changed by then.  At most 20000 slices are kept (the first 10000 and the latest 10000).
+func Hold(what string, b []byte) []byte {
+	heldN++
+	if len(b) == 0 {
+		return b
+	}
+	h := held{what, b, append([]byte{}, b...)}
+	if len(holds) < 20000 {
+		holds = append(holds, h)
+	} else {
+		holds[10000+heldN%10000] = h
+	}
+	return b
+}
+
+// HeldChanged lists (at most 20, without repetition) the descriptions of the kept slices whose contents changed.
+func HeldChanged() []string {
+	out := []string{}
+	seen := map[string]bool{}
+	for _, h := range holds {
+		same := len(h.ref) == len(h.snap)
+		for i := 0; same && i < len(h.snap); i++ {
+			same = h.ref[i] == h.snap[i]
+		}
+		if !same && !seen[h.what] && len(out) < 20 {
+			seen[h.what] = true
+			out = append(out, h.what)
+		}
+	}
+	return out
 }
 
 // Ints renders bytes as a JSON array of numbers (TLC reads them as a sequence of octets).
